@@ -254,13 +254,18 @@ Proof.
 Qed.
 
 (* --- the batching invariant: histogram entries of the current batch are recorded in
-   typesInBatch with their type *)
+   typesInBatch with a type of their slice *)
+Definition hk (ty : stype) : bool := match ty with THist | TCHist => true | _ => false end.
+Definition fk (ty : stype) : bool := match ty with TFHist | TCFHist => true | _ => false end.
+Definition rec_as (p : stype -> bool) (types : list (Z * stype)) (e : entry) : bool :=
+  match lookup_type types (e_sid e) with Some ty => p ty | None => false end.
+
 Definition inv (a : appender) : Prop :=
   match a_batches a with
   | [] => True
   | b :: _ =>
-      Forall (fun e => lookup_type (a_types a) (e_sid e) = Some THist) (b_h b) /\
-      Forall (fun e => lookup_type (a_types a) (e_sid e) = Some TFHist) (b_fh b)
+      Forall (fun e => rec_as hk (a_types a) e = true) (b_h b) /\
+      Forall (fun e => rec_as fk (a_types a) e = true) (b_fh b)
   end.
 
 Lemma entries_cons a b bs : a_batches a = b :: bs ->
@@ -270,37 +275,84 @@ Proof.
   rewrite app_nil_r. reflexivity.
 Qed.
 
-Lemma Forall_other_sid (P : entry -> Prop) e X :
-  Forall P X -> (forall x, P x -> e_sid x <> e_sid e) -> Forall (fun x => e_sid x <> e_sid e) X.
-Proof. intros H HP. eapply Forall_impl; [|exact H]. cbn. intros x Hx. apply HP. exact Hx. Qed.
+Lemma other_sids p types X e :
+  Forall (fun x => rec_as p types x = true) X -> rec_as p types e = false ->
+  Forall (fun x => e_sid x <> e_sid e) X.
+Proof.
+  intros H He. eapply Forall_impl; [|exact H]. cbn. intros x Hx Heq.
+  unfold rec_as in *. rewrite Heq in Hx. congruence.
+Qed.
+
+Lemma rec_keep p types X sid st :
+  Forall (fun x => rec_as p types x = true) X -> lookup_type types sid = None ->
+  Forall (fun x => rec_as p ((sid, st) :: types) x = true) X.
+Proof.
+  intros H Hn. eapply Forall_impl; [|exact H]. cbn. intros x Hx. unfold rec_as in *. cbn.
+  destruct (Z.eqb_spec sid (e_sid x)) as [Heq|]; [|exact Hx].
+  rewrite <- Heq, Hn in Hx. discriminate.
+Qed.
+
+(* where push puts an entry *)
+Lemma flat_push b e :
+  (stype_of (e_val e) = TFloat /\ flat (push b e) = (b_f b ++ [e]) ++ b_h b ++ b_fh b /\
+     b_h (push b e) = b_h b /\ b_fh (push b e) = b_fh b) \/
+  (hk (stype_of (e_val e)) = true /\ flat (push b e) = b_f b ++ (b_h b ++ [e]) ++ b_fh b /\
+     b_h (push b e) = b_h b ++ [e] /\ b_fh (push b e) = b_fh b) \/
+  (fk (stype_of (e_val e)) = true /\ flat (push b e) = b_f b ++ b_h b ++ (b_fh b ++ [e]) /\
+     b_h (push b e) = b_h b /\ b_fh (push b e) = b_fh b ++ [e]).
+Proof.
+  unfold push, flat. destruct (stype_of (e_val e)); cbn; auto 10.
+Qed.
+
+Lemma hk_fk ty : hk ty = true -> fk ty = false.
+Proof. destruct ty; cbn; congruence. Qed.
+
+(* continuing the current batch: the new entry only moves across entries of other series *)
+Lemma push_perm b e types :
+  Forall (fun x => rec_as hk types x = true) (b_h b) ->
+  Forall (fun x => rec_as fk types x = true) (b_fh b) ->
+  (stype_of (e_val e) = TFloat -> rec_as hk types e = false /\ rec_as fk types e = false) ->
+  (hk (stype_of (e_val e)) = true -> rec_as fk types e = false) ->
+  perm_ds (flat b ++ [e]) (flat (push b e)).
+Proof.
+  intros HH HFH Hf Hh. unfold flat at 1.
+  destruct (flat_push b e) as [(Es & -> & _)|[(Es & -> & _)|(Es & -> & _)]].
+  - destruct (Hf Es) as [A B].
+    rewrite <- !app_assoc. apply perm_ds_app_l. apply perm_ds_sym.
+    rewrite (app_assoc (b_h b) (b_fh b) [e]).
+    apply (perm_ds_move e (b_h b ++ b_fh b)). apply Forall_app. split.
+    + eapply other_sids; eauto.
+    + eapply other_sids; eauto.
+  - rewrite <- !app_assoc. apply perm_ds_app_l. apply perm_ds_app_l.
+    apply perm_ds_sym. apply (perm_ds_move e (b_fh b)). eapply other_sids; eauto.
+  - rewrite <- !app_assoc. apply pd_refl.
+Qed.
 
 Lemma add_entry_step a e :
   inv a -> perm_ds (entries a ++ [e]) (entries (add_entry a e)) /\ inv (add_entry a e).
 Proof.
   intros Hinv. unfold add_entry.
+  set (st := stype_of (e_val e)).
+  (* a new batch holding just e *)
+  assert (Hnewinv : forall bs, inv (mkApp (a_v2 a) (a_discard a) (a_snap a) (push batch0 e :: bs)
+                          match st with TFloat => [] | _ => [(e_sid e, st)] end)).
+  { intros bs. unfold inv. cbn [a_batches a_types].
+    destruct (flat_push batch0 e) as [(Es & _ & -> & ->)|[(Es & _ & -> & ->)|(Es & _ & -> & ->)]];
+      cbn [batch0 b_h b_fh app]; split; try constructor; try constructor.
+    - unfold rec_as. fold st in Es. destruct st; cbn in *; try discriminate; rewrite Z.eqb_refl; reflexivity.
+    - unfold rec_as. fold st in Es. destruct st; cbn in *; try discriminate; rewrite Z.eqb_refl; reflexivity. }
+  assert (Hflat0 : flat (push batch0 e) = [e]).
+  { unfold flat, push. destruct (stype_of (e_val e)); reflexivity. }
   destruct (a_batches a) as [|b bs] eqn:Eb.
-  - (* first batch *)
-    split.
-    + unfold entries. rewrite Eb. cbn. unfold flat, push.
-      destruct (stype_of (e_val e)); cbn; apply pd_refl.
-    + unfold inv. cbn. unfold push. destruct (stype_of (e_val e)) eqn:Es; cbn; repeat split; auto.
-      * constructor; [|constructor]. rewrite Z.eqb_refl. reflexivity.
-      * constructor; [|constructor]. rewrite Z.eqb_refl. reflexivity.
+  - split; [|apply Hnewinv].
+    unfold entries. rewrite Eb. cbn. rewrite Hflat0. apply pd_refl.
   - unfold inv in Hinv. rewrite Eb in Hinv. destruct Hinv as [HH HFH].
     assert (Hnew : perm_ds (entries a ++ [e])
               (entries (mkApp (a_v2 a) (a_discard a) (a_snap a) (push batch0 e :: b :: bs)
-                              match stype_of (e_val e) with TFloat => [] | _ => [(e_sid e, stype_of (e_val e))] end))
-            /\ inv (mkApp (a_v2 a) (a_discard a) (a_snap a) (push batch0 e :: b :: bs)
-                          match stype_of (e_val e) with TFloat => [] | _ => [(e_sid e, stype_of (e_val e))] end)).
-    { split.
-      - rewrite (entries_cons a b bs Eb).
-        unfold entries. cbn [a_batches rev]. rewrite !map_app, !concat_app. cbn.
-        rewrite !app_nil_r.
-        replace (flat (push batch0 e)) with [e]; [apply pd_refl|].
-        unfold flat, push. destruct (stype_of (e_val e)); reflexivity.
-      - unfold inv. cbn [a_batches a_types]. unfold push.
-        destruct (stype_of (e_val e)); cbn; repeat split; auto;
-          constructor; auto; rewrite Z.eqb_refl; reflexivity. }
+                              match st with TFloat => [] | _ => [(e_sid e, st)] end))).
+    { rewrite (entries_cons a b bs Eb).
+      unfold entries. cbn [a_batches rev]. rewrite !map_app, !concat_app. cbn.
+      rewrite !app_nil_r, Hflat0. apply pd_refl. }
     rewrite (entries_cons a b bs Eb).
     assert (Hcont : forall types,
               perm_ds (flat b ++ [e]) (flat (push b e)) ->
@@ -308,63 +360,42 @@ Proof.
                       (entries (mkApp (a_v2 a) (a_discard a) (a_snap a) (push b e :: bs) types))).
     { intros types Hp. unfold entries. cbn [a_batches rev]. rewrite map_app, concat_app. cbn.
       rewrite app_nil_r, <- app_assoc. apply perm_ds_app_l. exact Hp. }
+    (* the invariant after continuing the batch with types' *)
+    assert (Hinvc : forall types',
+              Forall (fun x => rec_as hk types' x = true) (b_h b) ->
+              Forall (fun x => rec_as fk types' x = true) (b_fh b) ->
+              (hk st = true -> rec_as hk types' e = true) ->
+              (fk st = true -> rec_as fk types' e = true) ->
+              inv (mkApp (a_v2 a) (a_discard a) (a_snap a) (push b e :: bs) types')).
+    { intros types' H1 H2 H3 H4. unfold inv. cbn [a_batches a_types].
+      destruct (flat_push b e) as [(Es & _ & -> & ->)|[(Es & _ & -> & ->)|(Es & _ & -> & ->)]];
+        split; auto; apply Forall_app; split; auto; constructor; auto. }
     destruct (lookup_type (a_types a) (e_sid e)) as [prev|] eqn:El.
-    + destruct (stype_eqb prev (stype_of (e_val e))) eqn:Ep; [|rewrite <- (entries_cons a b bs Eb); exact Hnew].
+    + destruct (stype_eqb prev st) eqn:Ep;
+        [|split; [rewrite <- (entries_cons a b bs Eb); exact Hnew|apply Hnewinv]].
       apply stype_eqb_eq in Ep. subst prev.
-      (* same histogram type again (floats are never recorded) *)
       split.
-      * apply Hcont. unfold flat, push.
-        destruct (stype_of (e_val e)) eqn:Es; cbn.
-        -- (* TFloat recorded: moves across b_h ++ b_fh, all of other series *)
-           rewrite <- !app_assoc.
-           apply perm_ds_app_l. apply perm_ds_sym.
-           rewrite (app_assoc (b_h b) (b_fh b) [e]).
-           apply (perm_ds_move e (b_h b ++ b_fh b)). apply Forall_app. split.
-           ++ eapply Forall_other_sid; [exact HH|]. cbn. intros x Hx Heq. rewrite Heq in Hx. congruence.
-           ++ eapply Forall_other_sid; [exact HFH|]. cbn. intros x Hx Heq. rewrite Heq in Hx. congruence.
-        -- rewrite <- !app_assoc. apply perm_ds_app_l. apply perm_ds_app_l.
-           apply perm_ds_sym. apply perm_ds_move.
-           eapply Forall_other_sid; [exact HFH|]. cbn. intros x Hx Heq. rewrite Heq in Hx. congruence.
-        -- rewrite <- !app_assoc. apply pd_refl.
-      * unfold inv. cbn [a_batches a_types]. unfold push.
-        destruct (stype_of (e_val e)) eqn:Es; cbn; split; auto; apply Forall_app; split; auto.
-    + destruct (stype_of (e_val e)) eqn:Es.
-      * (* a float of a series without histograms in the batch *)
-        split.
-        -- apply Hcont. unfold flat, push. rewrite Es. cbn.
-           rewrite <- !app_assoc.
-           apply perm_ds_app_l. apply perm_ds_sym.
-           rewrite (app_assoc (b_h b) (b_fh b) [e]).
-           apply (perm_ds_move e (b_h b ++ b_fh b)). apply Forall_app. split.
-           ++ eapply Forall_other_sid; [exact HH|]. cbn. intros x Hx Heq. rewrite Heq in Hx. congruence.
-           ++ eapply Forall_other_sid; [exact HFH|]. cbn. intros x Hx Heq. rewrite Heq in Hx. congruence.
-        -- unfold inv. cbn [a_batches a_types]. unfold push. rewrite Es. cbn. split; auto.
-      * split.
-        -- apply Hcont. unfold flat, push. rewrite Es. cbn.
-           rewrite <- !app_assoc. apply perm_ds_app_l. apply perm_ds_app_l.
-           apply perm_ds_sym. apply perm_ds_move.
-           eapply Forall_other_sid; [exact HFH|]. cbn. intros x Hx Heq. rewrite Heq in Hx. congruence.
-        -- assert (Hkeep : forall ty X, Forall (fun x => lookup_type (a_types a) (e_sid x) = Some ty) X ->
-                     Forall (fun x => lookup_type ((e_sid e, THist) :: a_types a) (e_sid x) = Some ty) X).
-           { intros ty X HX. eapply Forall_impl; [|exact HX]. cbn. intros x Hx.
-             destruct (Z.eqb_spec (e_sid e) (e_sid x)) as [Heq|]; [|exact Hx].
-             rewrite <- Heq in Hx. congruence. }
-           unfold inv. cbn [a_batches a_types]. unfold push. rewrite Es. cbn [b_h b_fh]. split.
-           ++ apply Forall_app. split; [apply Hkeep; exact HH|].
-              constructor; [|constructor]. cbn. rewrite Z.eqb_refl. reflexivity.
-           ++ apply Hkeep. exact HFH.
-      * split.
-        -- apply Hcont. unfold flat, push. rewrite Es. cbn.
-           rewrite <- !app_assoc. apply pd_refl.
-        -- assert (Hkeep : forall ty X, Forall (fun x => lookup_type (a_types a) (e_sid x) = Some ty) X ->
-                     Forall (fun x => lookup_type ((e_sid e, TFHist) :: a_types a) (e_sid x) = Some ty) X).
-           { intros ty X HX. eapply Forall_impl; [|exact HX]. cbn. intros x Hx.
-             destruct (Z.eqb_spec (e_sid e) (e_sid x)) as [Heq|]; [|exact Hx].
-             rewrite <- Heq in Hx. congruence. }
-           unfold inv. cbn [a_batches a_types]. unfold push. rewrite Es. cbn [b_h b_fh]. split.
-           ++ apply Hkeep. exact HH.
-           ++ apply Forall_app. split; [apply Hkeep; exact HFH|].
-              constructor; [|constructor]. cbn. rewrite Z.eqb_refl. reflexivity.
+      * apply Hcont. apply (push_perm b e (a_types a) HH HFH).
+        -- intros Es. fold st in Es. unfold rec_as. rewrite El, Es. auto.
+        -- intros Es. fold st in Es. unfold rec_as. rewrite El. apply hk_fk. exact Es.
+      * apply Hinvc; auto; intros Es; unfold rec_as; rewrite El; exact Es.
+    + assert (Hperm : perm_ds (flat b ++ [e]) (flat (push b e))).
+      { apply (push_perm b e (a_types a) HH HFH); intros _; unfold rec_as; rewrite El; auto. }
+      destruct st eqn:Est.
+      * split; [apply Hcont; exact Hperm|].
+        apply Hinvc; auto; cbn; discriminate.
+      * split; [apply Hcont; exact Hperm|].
+        apply Hinvc; try (apply rec_keep; assumption);
+          intros _; unfold rec_as; cbn; rewrite Z.eqb_refl; reflexivity.
+      * split; [apply Hcont; exact Hperm|].
+        apply Hinvc; try (apply rec_keep; assumption);
+          intros _; unfold rec_as; cbn; rewrite Z.eqb_refl; reflexivity.
+      * split; [apply Hcont; exact Hperm|].
+        apply Hinvc; try (apply rec_keep; assumption);
+          intros _; unfold rec_as; cbn; rewrite Z.eqb_refl; reflexivity.
+      * split; [apply Hcont; exact Hperm|].
+        apply Hinvc; try (apply rec_keep; assumption);
+          intros _; unfold rec_as; cbn; rewrite Z.eqb_refl; reflexivity.
 Qed.
 
 Lemma add_entries_perm log : forall a,
